@@ -844,6 +844,19 @@ impl Ctx {
         } else if canon(&j1) != canon(&j2) {
             self.oracle_fail(&format!("restored-form-differs:{name}"), input.clone(), clip(&canon(&j1).to_string()), clip(&canon(&j2).to_string()));
         }
+        // correspondence on the message expiry's time codec (D24)
+        if let (true, Some(OutboundMessage::CredentialResetV1 { expiry_time: e0, .. }), Some(OutboundMessage::CredentialResetV1 { expiry_time: e1, .. })) =
+            (name == "ValueSetMessage", guard(|| b.vs.as_message().cloned()).flatten(), guard(|| back.as_message().cloned()).flatten())
+        {
+            if e0.unix_timestamp_nanos() >= 0 {
+                let model = self.drv.ask(&format!("msgexp {}", e0.unix_timestamp_nanos()));
+                let got = e1.unix_timestamp_nanos().to_string();
+                self.rep.count(if e0 == e1 { "message-expiry:exact" } else { "message-expiry:truncated" });
+                if model != got {
+                    self.model_fail("message-expiry-codec", input.clone(), model, got);
+                }
+            }
+        }
         // the same without serde in between (what replication does in-process)
         match hk::vs_direct_roundtrip(&b.vs) {
             Ok(d) => {
@@ -1496,13 +1509,13 @@ fn main() {
     run_tags(&mut ctx, args.seed);
     ctx.rep.note(format!("tags+regression: {} ms", t.elapsed().as_millis()));
     let t = std::time::Instant::now();
-    let nvalues = args.cases(40 * names.len() as u64, 600 * names.len() as u64);
+    let nvalues = args.cases(40 * names.len() as u64, 400 * names.len() as u64);
     for i in 0..nvalues {
         run_value_case(&mut ctx, args.seed, i, &names);
     }
     ctx.rep.note(format!("values: {} ms", t.elapsed().as_millis()));
     let t = std::time::Instant::now();
-    for i in 0..args.cases(20 * 14, 150 * 14) {
+    for i in 0..args.cases(20 * 14, 100 * 14) {
         run_password_case(&mut ctx, args.seed, i, &kdfs);
     }
     ctx.rep.note(format!("passwords: {} ms", t.elapsed().as_millis()));
